@@ -37,6 +37,7 @@ def declaratorOk (a : Ast) : ArrayType → Bool
   | .variable _ _ => false                      -- counted arrays of primitives (orphan rule, README)
 
 def fieldOk (a : Ast) (f : StructField) : Bool :=
+  f.fieldName != "TRUE" && f.fieldName != "FALSE" &&
   if f.isOptional then
     (match f.fieldValue with
      | .none (.ident n) => declared a n
@@ -113,7 +114,11 @@ def nameSafe (n : String) : Bool := (BasicType.ident n).asSafeString == n
 
 def keysOk (a : Ast) : Bool := a.types.all (fun kv => kv.1 == kv.2.rustName && nameSafe kv.1) && keysSorted a.types
 
+/-- constant and enum-member names are identifiers proper: not numerals (a label `5` must mean five) and not TRUE/FALSE -/
+def constNamesOk (a : Ast) : Bool :=
+  a.constants.all fun kv => (parseDecOrHex kv.1).isNone && kv.1 != "TRUE" && kv.1 != "FALSE"
+
 /-- the supported subset -/
-def Supported (a : Ast) : Bool := keysOk a && a.types.all (fun kv => typeOk a kv.2)
+def Supported (a : Ast) : Bool := keysOk a && a.types.all (fun kv => typeOk a kv.2) && constNamesOk a
 
 end Fx
